@@ -507,6 +507,24 @@ fn paths_for(cfg: &Cfg, ops: &[Op], order: (u64, u64), t: &mut Tally) {
         r.extend(r2);
         variants.push(("moved-between-threads", (r, shared.lock().unwrap().clone())));
     }
+    // flush is finish under another name in every state: also on a muxer that an in-place finish
+    // has already completed (and on one whose history ends in a second in-place finish)
+    for extra in [vec![Op::FinishInPlace], vec![Op::FinishInPlaceStats, Op::FinishInPlace]] {
+        let mut ops2 = ops.to_vec();
+        ops2.extend(extra.iter().cloned());
+        let mut got = vec![];
+        for fin in [Op::Finish, Op::Flush] {
+            let s = RecSink::default();
+            let st = s.0.clone();
+            let r = run_on(builder(cfg, s), &ops2, &fin);
+            got.push((r, st.borrow().bytes.clone()));
+        }
+        t.evaluations += 1;
+        if got[0] != got[1] {
+            let what = if got[0].1 != got[1].1 { "bytes" } else { "results" };
+            t.violation(&format!("C17/path/flush-vs-finish-after-finish/{what}"), order, || format!("{} | {} | finish answers {:?}, flush answers {:?}", cfg.short(), brief_ops(&ops2), got[0].0.last(), got[1].0.last()), || json!({"engine": "E1-paths", "cfg": cfg, "ops": ops2, "path": "flush-vs-finish-after-finish"}));
+        }
+    }
     for (name, got) in variants {
         t.evaluations += 1;
         t.transitions += ops.len() as u64 + 1;
